@@ -26,7 +26,7 @@ RULE = ('per run: routine in {fast_matvec, dmrg_hadamard, amen_mv, amen_mm}; ord
         'independently; operand ranks 1..4; N(0,1), geometric-decay or cancelling 10^+-6 core scales; float64 (+complex128 for DMRG); '
         'eps=10^-k, k in 1..12; initial guess in {none, random rank 1, random rank 3, exact answer, perturbed answer}; the global '
         'torch PRNG (initial guess, rank kick, enrichment) is seeded per run from the run PRNG; on 25% of runs primary SVD calls fail (late calls too) '
-        'at seeded indices; distinct by (routine, order, dtype, value class, eps decade, guess kind, fault kind, singleton/odd-size flags)')
+        'at seeded indices; 10-12% of runs are preceded in the same process by the same routine on other data of the same structure (history independence); distinct by (routine, order, dtype, value class, eps decade, guess kind, fault kind, singleton/odd-size flags)')
 ASSUMPTIONS = ['single-threaded BLAS, so a run is a pure function of (seed, run index, working tree)',
                'oracle constant C=5: error <= 5*eps*||exact|| (calibrated: worst observed ratio err/eps 0.81 over 200 000 runs)',
                'exact product computed by the checker\'s own dense contraction in the operand dtype']
@@ -90,6 +90,9 @@ def gen_case(rng):
         p['plan'] = {'P': [], 'Q': [], 'all': True, 'kind': 'all'}
     else:
         p['plan'] = None
+    # history dimension: the checked call is preceded, in the same process, by the same routine on other data of the same
+    # structure (values from the seed below)
+    p['prelude'] = rng.getrandbits(31) if rng.random() < 0.1 else None
     return p
 
 
@@ -258,6 +261,17 @@ def exec_case(p, res):
             seams.seed_global(p['tseed'])
             return call_routine(p, A, B, guess)
         p = dict(p, plan=svdfault.resolve_fractions(p['plan'], _count))
+    if p.get('prelude') is not None:
+        # history dimension: the same routine on other operands of the same structure earlier in this process (its
+        # outcome is another run's business); the checked call must not depend on it
+        pp = dict(p, vseed=p['prelude'], plan=None, prelude=None)
+        try:
+            A2, B2, g2 = build(pp)[:3]
+            seams.seed_global(p['tseed'] ^ 0x5a5a5a)
+            call_routine(pp, A2, B2, g2)
+        except Exception:
+            core.bump(stats, 'history.prelude_raised')
+        core.bump(stats, 'probe.call_with_history')
     seams.seed_global(p['tseed'])
     y, exc, f = svdfault.run_with_plan(lambda: call_routine(p, A, B, guess), p['plan'] or {})
     core.bump(stats, 'calls.' + p['routine'])
@@ -329,6 +343,8 @@ def shrink_candidates(desc):
     p = desc['case']
     if p.get('plan'):
         yield {'case': dict(p, plan=None)}
+    if p.get('prelude') is not None:
+        yield {'case': dict(p, prelude=None)}
         if len(p['plan'].get('P', [])) > 1:
             for k in range(len(p['plan']['P'])):
                 yield {'case': dict(p, plan=dict(p['plan'], P=p['plan']['P'][:k] + p['plan']['P'][k + 1:]))}
